@@ -1076,6 +1076,26 @@ def prefix_cmd_family(seed, n):
 
 
 
+def alt_rep_family(seed, n, maxlen=4, budget=5000):
+    """repeated and counted flags as members of the branches of a choice"""
+    rnd = random.Random(seed)
+    out = []
+    for i in range(n):
+        b1 = [branch(rf("a0", "one", "--aa"), rf("a1", "count", "-c")), branch(rf("a0", "one", "--aa"), rf("a1", "many", "-m")),
+              branch(ar("a0", "one", "str", "--aa"), rf("a1", "some", "-s"))][i % 3]
+        b2 = [branch(rf("b0", "one", "--bb")), branch(rf("b0", "one", "--bb"), sw("b1", "-w")), branch(rf("b0", "count", "--bb"))][(i // 3) % 3]
+        wrap = ["one", "opt", "many", "some"][i % 4]
+        if b2["fields"][0]["arity"] == "count" and wrap in ("many", "some"):
+            wrap = "opt"        # (a branch that always succeeds on nothing under a repetition is the fuel rule's business)
+        g = altf("g0", wrap, b1, b2) if i % 2 else altf("g0", wrap, b2, b1)
+        named = [g] if i % 5 else [sw("o1", "-v"), g]
+        d = mkdef(f"altrep{seed}_{i}", level(named, NOTAIL if i % 2 else postail(pos("p0", "opt"))), maxlen=maxlen, extras=("unk",),
+                  spells=("sep",), words=("x",))
+        galpha_trim(d, budget)
+        out.append(d)
+    return out
+
+
 # ---------------------------------------------------------------- batteries
 def battery_family(seed, n, maxlen=3, budget=6000):
     """`verbose_and_quiet_by_number` / `verbose_by_slice` (two neighbouring repeated flags read as one number) among other
